@@ -449,6 +449,7 @@ func (Scenario) Run(c choice.Chooser, opt sim.Options) (res sim.Result) {
 	nontrivial := false
 	changedSinceRead := false
 	serial := 1
+ops:
 	for more := true; more; more = len(hist) < maxHist && c.Intn("more", 16) != 0 {
 		kind := choice.Pick(c, "op:kind", []int{6, 4, 2, 2, 2, 1, 1, 1})
 		res.Evals++
@@ -602,7 +603,12 @@ func (Scenario) Run(c choice.Chooser, opt sim.Options) (res sim.Result) {
 			hist = append(hist, fmt.Sprintf("%s -> err=%v", what, err != nil))
 			res.Count("fault:malformed-update", 1)
 			if err == nil {
-				return violate("malformed-update-accepted", what+" was accepted")
+				// The property does not say that a parameter must reject
+				// what it cannot parse strictly (a lenient decoder that
+				// coerces 5 to "5" is not stale). The model cannot know
+				// which value was taken: the history ends here, unjudged.
+				res.Count("probe:malformed-update-accepted-history-ends", 1)
+				break ops
 			}
 			if got := w.params[s].Value(); got != w.srcVal[s] {
 				return violate("stale-read", fmt.Sprintf("after the rejected %s the parameter reads %q, it held %q", what, got, w.srcVal[s]))
